@@ -70,6 +70,13 @@ def creation_tasks():
     for args in ([5], [2, 7], [1, 10, 3], [0.0, 1.0, 0.25], [5, 0, -1], [3.0]):
         for dt in (None, "float32", "int16", "float64"):
             T.append({"task": "creation", "fn": "arange", "args": args, "kw": {} if dt is None else {"dtype": dt}})
+    # arange steps in the TARGET dtype (it is not "generate, then cast"): non-integer start / step with an integer dtype, float steps in half / single precision, bool
+    for args in ([0.5, 5, 1.5], [0.2, 3.1, 0.7], [0.5, 4.6], [2.5], [1, 7, 2], [3], [0.1, 1.0, 0.1], [5, 0.5, -1.5]):
+        for dt in ("int64", "int32", "int8", "uint8", "float32", "float16", "bool"):
+            T.append({"task": "creation", "fn": "arange", "args": args, "kw": {"dtype": dt}})
+    # inputs that numpy.asarray re-wraps without copying and that are not plain ndarrays: tensor(x) / Tensor(x) copy by default
+    for src, which, copy, dt in itertools.product(("recarray", "subclass", "masked", "memoryview", "array.array", "__array__", "ndarray_view"), ("tensor", "Tensor"), (None, True, False), (None, "same", "other")):
+        T.append({"task": "foreign", "src": src, "which": which, "copy": copy, "dtype": dt})
     for args, kw in (([0, 1, 5], {}), ([0.0, 10.0, 11], {"endpoint": False}), ([1, 2, 3], {"dtype": "float32"}), ([0, 1, 1], {}), ([0, 1, 0], {}), ([[0, 1], [2, 3], 4], {"axis": 1})):
         T.append({"task": "creation", "fn": "linspace", "args": args, "kw": kw})
         T.append({"task": "creation", "fn": "logspace", "args": args, "kw": dict(kw, base=2.0)})
@@ -107,7 +114,7 @@ def run(rep, work, tier, seed, props, replay=None):
     if replay is not None and "task" in replay:
         tasks = [replay["task"]]
         cells = [t for t in tasks if t["task"] == "cell"]
-        ctasks = [t for t in tasks if t["task"] in ("creation", "asarray")]
+        ctasks = [t for t in tasks if t["task"] in ("creation", "asarray", "foreign")]
     n = max(1, (len(tasks) + 15) // 16)
     parts = [tasks[i:i + n] for i in range(0, len(tasks), n)]
     res = []
